@@ -16,7 +16,7 @@ LEVEL = "exploration"
 TECHNIQUE = "numpy differential over all shapes <=3x3 / vectors <=4 with LINE-coverage monitor of the dimension rules"
 RULE = ("shapes: vectors 1-4, matrices r x c with r,c in 1..3 (13 shapes). elementwise + - * /: all 169 shape pairs x element kinds "
         "(converter/constant/stock) + array-scalar and scalar-array forms + named vectors/matrices (matching and mismatching names); "
-        "dot: all 169 shape pairs; aggregates sum prod mean median stddev rank size on every shape; nested two-operator forms; "
+        "dot: all 169 shape pairs; aggregates sum prod mean median stddev rank size on every shape; nested two-operator forms; vector dot products of all 16 length pairs under 11 scalar wrappers (abs max min ** > If round neg + * sqrt); "
         "results read through element[i](t), element[i][j](t) and plot(return_df). value draws: 2 (quick) / 6 (thorough) incl. negatives. "
         "distinct_nontrivial = distinct (form, shapes, kinds) combinations that were accepted and whose numpy result has at least two "
         "different entries (or is a scalar aggregate of >=2 different entries).")
@@ -31,6 +31,40 @@ SHAPES = VEC + MAT
 OPS = {"+": np.add, "-": np.subtract, "*": np.multiply, "/": np.divide}
 AGGS = ["sum", "prod", "mean", "median", "stddev", "rank", "size"]
 KINDS = ["converter", "constant", "stock"]
+WRAPPERS = ["abs", "max0", "min9", "pow2", "gt0", "if", "round", "neg", "plus", "times", "sqrtabs"]
+
+
+def wrap_np(w, x):
+    import math
+    return {"abs": abs(x), "max0": max(x, 0.0), "min9": min(x, 9.0), "pow2": x ** 2, "gt0": float(x > 0.0), "if": x, "round": round(x, 1),
+            "neg": -x, "plus": x + 1.5, "times": 2.0 * x, "sqrtabs": math.sqrt(abs(x) + 1.0)}[w]
+
+
+def wrap_dsl(w, x):
+    import BPTK_Py.sddsl.functions as F
+    if w == "abs":
+        return F.abs(x)
+    if w == "max0":
+        return F.max(x, 0.0)
+    if w == "min9":
+        return F.min(x, 9.0)
+    if w == "pow2":
+        return x ** 2
+    if w == "gt0":
+        return x > 0.0
+    if w == "if":
+        return F.If(F.time() >= 0.0, x, 0.0)
+    if w == "round":
+        return F.round(x, 1)
+    if w == "neg":
+        return -x
+    if w == "plus":
+        return x + 1.5
+    if w == "times":
+        return 2.0 * x
+    if w == "sqrtabs":
+        return F.sqrt(F.abs(x) + 1.0)
+    raise KeyError(w)
 
 
 def gen_cases(tier, seed):
@@ -55,6 +89,16 @@ def gen_cases(tier, seed):
         for i, s1 in enumerate(SHAPES):
             for j, s2 in enumerate(SHAPES):
                 cases.append(dict(form="dot", s1=list(s1), s2=list(s2), k1=KINDS[(i + d) % 3], k2=KINDS[(j + d + 1) % 3], draw=d))
+        # a dot product nested under a scalar wrapper: the size rules must hold there, too
+        for w in WRAPPERS:
+            for n1 in (1, 2, 3, 4):
+                for n2 in (1, 2, 3, 4):
+                    cases.append(dict(form="dot_nested", wrapper=w, s1=[n1], s2=[n2], draw=d))
+            for op in OPS:
+                for s1 in ((3,), (2, 2)):
+                    cases.append(dict(form="elem_nested", wrapper=w, op=op, s1=list(s1), draw=d))
+            for (s1, s2) in (((2, 3), (3,)), ((2, 3), (2,)), ((3,), (3, 2)), ((2,), (3, 2))):
+                cases.append(dict(form="dot_nested_mv", wrapper=w, s1=list(s1), s2=list(s2), draw=d))
         for s1 in SHAPES:
             for agg in AGGS:
                 ranks = [-1, 1, 2, 99] if agg == "rank" else [None]
@@ -172,6 +216,21 @@ def run_case(case):
             except ValueError:
                 expected = None
             key = ("dot", tuple(case["s1"]), tuple(case["s2"]), case["k1"], case["k2"])
+        elif form in ("dot_nested", "dot_nested_mv"):
+            A, B = values(case["s1"], d, 10), values(case["s2"], d, 11)
+            try:
+                dv = np.dot(A, B)
+                expected = np.array(wrap_np(case["wrapper"], float(dv))) if dv.shape == () else None
+                if dv.shape != ():
+                    judged = False   # an arrayed dot under a scalar wrapper: no numpy counterpart, only the mismatch cases are judged
+            except ValueError:
+                expected = None
+            key = (form, case["wrapper"], tuple(case["s1"]), tuple(case["s2"]))
+        elif form == "elem_nested":
+            A, B = values(case["s1"], d, 12), values(case["s1"], d, 13)
+            B = np.where(np.abs(B) < 0.2, 1.5, B)
+            expected = np.vectorize(lambda x: float(wrap_np(case["wrapper"], float(x))))(OPS[case["op"]](A, B))
+            key = ("elem_nested", case["wrapper"], case["op"], tuple(case["s1"]))
         elif form == "agg":
             A = values(case["s1"], d, 6)
             a = case["agg"]
@@ -229,6 +288,12 @@ def run_case(case):
         elif form == "dot":
             a, b = make_el(m, case["k1"], "a", A), make_el(m, case["k2"], "b", B)
             expr = a.dot(b)
+        elif form in ("dot_nested", "dot_nested_mv"):
+            a, b = make_el(m, "converter", "a", A), make_el(m, "converter", "b", B)
+            expr = wrap_dsl(case["wrapper"], a.dot(b))
+        elif form == "elem_nested":
+            a, b = make_el(m, "converter", "a", A), make_el(m, "converter", "b", B)
+            expr = wrap_dsl(case["wrapper"], pyop[case["op"]](a, b))
         elif form == "agg":
             a = make_el(m, case["k1"], "a", A)
             expr = a.arr_rank(case["rank"]) if case["agg"] == "rank" else getattr(a, "arr_" + case["agg"])()
@@ -275,6 +340,8 @@ def run_case(case):
             got = {r: {c: float(res[r][c](t)) for c in ("a", "b")} for r in ("A", "B")}
         elif form == "named_vs_indexed":
             got = [float(res[i](t)) for i in ("x", "y")] if res.named_arrayed else [float(res[i](t)) for i in range(2)]
+        elif expected is None and not judged:
+            got = None
         elif expected is None:
             # numpy rejects: try to obtain any value at all
             if res._elements.vector_size() > 0:
@@ -296,7 +363,7 @@ def run_case(case):
         flush(counters, before)
         return dict(verdict="rejected", counters=counters, sample=dict(case=case, why="%s: %s" % (type(e).__name__, str(e)[:100])))
     flush(counters, before)
-    if expected is None:
+    if expected is None and judged:
         return viol(case, counters, "mismatch-accepted", None, got, before)
     if not judged:
         counters["not_judged"] = 1
